@@ -7,7 +7,7 @@ COQ = os.path.join(ROOT, "coq")
 ML = os.path.join(ROOT, "ml")
 HARNESS = os.path.join(ROOT, "harness")
 EVID = os.path.join(ROOT, "evidence")
-REPO = "/repo"
+REPO = os.environ.get("VERIF_REPO", "/repo")   # override only for development against a scratch worktree
 
 GOENV = dict(os.environ, GOFLAGS="-mod=mod", GOPROXY="off", GOSUMDB="off", GOTOOLCHAIN="local",
              CGO_ENABLED="0")
@@ -160,6 +160,9 @@ def build_go(tags=""):
     """Build the Go harness against /repo's current working tree."""
     with Lock("go"):
         key = tags.replace(",", "_") or "base"
+        from . import gen
+        gen.write_if_changed(os.path.join(HARNESS, "go.mod"),
+                             "module verifharness\n\ngo 1.22\n\nrequire github.com/avfs/avfs v0.0.0\n\nreplace github.com/avfs/avfs => %s\n" % REPO)
         binp = os.path.join(HARNESS, "bin", "avfscheck-" + key)
         cmd = ["go", "build", "-o", binp]
         if tags:
